@@ -580,6 +580,11 @@ func publicationsOf(base ssa.Value) []ssa.Instruction {
 	}
 	for _, b := range al.Parent().Blocks {
 		for _, ins := range b.Instrs {
+			// sent on a channel
+			if sd, ok := ins.(*ssa.Send); ok && (holders[sd.X] || holders[strip(sd.X)]) {
+				out = append(out, ins)
+				continue
+			}
 			ci, ok := ins.(ssa.CallInstruction)
 			if !ok {
 				continue
@@ -604,6 +609,11 @@ func publicationsOf(base ssa.Value) []ssa.Instruction {
 				continue
 			}
 			if _, isGo := ins.(*ssa.Go); isGo {
+				out = append(out, ins)
+				continue
+			}
+			// handed to other goroutines through an atomic.Value (the sequencer's slot ring)
+			if sc := ci.Common().StaticCallee(); sc != nil && sc.Name() == "Store" && sc.Signature.Recv() != nil && isNamed(sc.Signature.Recv().Type(), "sync/atomic", "Value") {
 				out = append(out, ins)
 				continue
 			}
@@ -661,6 +671,7 @@ func checkC19(p *Prog, res *Result, tier string) {
 	res.rule("C19-R5", "no self-deadlock: a mutex is never (re)acquired exclusively on a path on which the same goroutine already holds it, directly or through a called repo function", 1)
 	res.rule("C19-R7", "no append onto a slice that belongs to a shared object (a field of a long-lived struct, a package variable) unless the result is stored back into that same place: with spare capacity the append writes into the shared array from whichever goroutine runs it", 10)
 	res.rule("C19-R8", "a goroutine that announces its end with a deferred WaitGroup.Done is counted (Add) by whoever starts it, before the go statement - never by itself", 2)
+	res.rule("C19-R11", "no struct that contains a lock is received or passed by value: a value receiver locks its own copy", 1)
 	res.rule("C19-R10", "no function literal that runs later (go, defer in a loop, time.AfterFunc, stored) captures a variable of the enclosing for/range statement: below Go 1.22 there is one such variable per loop", 1)
 	res.rule("C19-R9", "a package-level variable that is written after package initialisation is accessed only through sync/atomic or under a package-level lock (a lock of a stream- or request-scoped object does not order accesses from two such objects)", 1)
 	res.rule("C19-R4", "post-construction writes to fields of mutex-less types are atomic or confined (frozen table)", 5)
@@ -880,6 +891,7 @@ func checkC19(p *Prog, res *Result, tier string) {
 	checkAddBeforeGo(p, res, "C19-R8")
 	checkPackageVariables(p, res, "C19-R9")
 	checkLoopVarCapture(p, res, "C19-R10")
+	checkNoLockCopies(p, res, "C19-R11")
 	checkSharedAppend(p, res, "C19-R7")
 
 	// ---- R6: shared batches are read-only (C05-R8) ----
@@ -1126,7 +1138,9 @@ func checkUnguardedTypes(p *Prog, res *Result, inOwner map[*types.Var]bool) {
 				for _, ref := range *fa.Referrers() {
 					switch x := ref.(type) {
 					case *ssa.Store:
-						if x.Addr == ssa.Value(fa) && !fresh {
+						// a write to an object made in this function is construction - until the object has been handed to
+						// another goroutine (go, a channel, an atomic.Value)
+						if x.Addr == ssa.Value(fa) && (!fresh || publishedBefore(fa.X, x)) {
 							fi.writes = append(fi.writes, x)
 							fi.nonAtomic++
 						}
@@ -2263,5 +2277,64 @@ func checkLoopVarCapture(p *Prog, res *Result, rule string) {
 	}
 	if bad == 0 {
 		res.ok(rule, "function literals made in loops", "-", fmt.Sprintf("%d literal(s) that run later, none refers to a per-loop variable", n))
+	}
+}
+
+// checkNoLockCopies (C19-R11): a struct that contains a sync.Mutex / RWMutex (directly, embedded, or in a nested struct
+// field) is never passed or received by value in repository code: a method with a value receiver locks the mutex of its
+// own copy, which excludes nobody. (go vet's copylocks check says the same; the suite runs with -vet=off.)
+func checkNoLockCopies(p *Prog, res *Result, rule string) {
+	var holdsLock func(t types.Type, d int) bool
+	holdsLock = func(t types.Type, d int) bool {
+		if d > 4 {
+			return false
+		}
+		if isNamed(t, "sync", "Mutex") || isNamed(t, "sync", "RWMutex") || isNamed(t, "sync", "WaitGroup") || isNamed(t, "sync", "Once") {
+			return true
+		}
+		st, ok := t.Underlying().(*types.Struct)
+		if !ok {
+			return false
+		}
+		for i := 0; i < st.NumFields(); i++ {
+			if holdsLock(st.Field(i).Type(), d+1) {
+				return true
+			}
+		}
+		return false
+	}
+	n, bad := 0, 0
+	for _, f := range p.AllFuncs {
+		if f.Pkg == nil || f.Synthetic != "" || !strings.HasPrefix(f.Pkg.Pkg.Path(), modPath) {
+			continue
+		}
+		sig := f.Signature
+		var vars []*types.Var
+		if sig.Recv() != nil {
+			vars = append(vars, sig.Recv())
+		}
+		for i := 0; i < sig.Params().Len(); i++ {
+			vars = append(vars, sig.Params().At(i))
+		}
+		for _, v := range vars {
+			if _, isPtr := v.Type().Underlying().(*types.Pointer); isPtr {
+				continue
+			}
+			if _, isStruct := v.Type().Underlying().(*types.Struct); !isStruct {
+				continue
+			}
+			n++
+			if holdsLock(v.Type(), 0) {
+				bad++
+				what := "parameter " + v.Name()
+				if v == sig.Recv() {
+					what = "receiver"
+				}
+				res.bad(rule, fmt.Sprintf("%s: %s is a struct with a lock, by value", funcName(f), what), p.pos(f.Pos()), "the function works on a copy of a struct that contains a sync.Mutex (RWMutex, WaitGroup, Once): the lock it takes is the copy's own and excludes nobody, while pointers inside the copy (a list, a map) still refer to the shared data - concurrent callers corrupt it")
+			}
+		}
+	}
+	if bad == 0 {
+		res.ok(rule, "by-value struct receivers and parameters", "-", fmt.Sprintf("%d examined, none contains a lock", n))
 	}
 }
